@@ -233,6 +233,23 @@ def nth_line(path, n):
     return None
 
 
+def find_back(path, n, key, window=200000):
+    """the nearest line at or before line n whose JSON object has `key`"""
+    best = None
+    with open(path, errors="replace") as f:
+        for i, line in enumerate(f, 1):
+            if i > n:
+                break
+            if i >= n - window and ('"%s"' % key) in line:
+                best = line
+    if best is None:
+        return None
+    try:
+        return json.loads(best)
+    except Exception:
+        return {"raw": best[:2000]}
+
+
 def drop_line(path, n, out):
     with open(path, errors="replace") as f, open(out, "w") as g:
         for i, line in enumerate(f, 1):
@@ -329,8 +346,34 @@ class Check:
         return 1 if self.violations else 0
 
 
+def block_range(path, idx, starts=('{"ev":"begin"',), ends=('{"ev":"begin"', '{"ev":"msg"')):
+    """line range [a, b] of the run containing line idx: from the nearest preceding `begin`
+    to the line before the next `begin`/`msg`"""
+    a = None
+    b = None
+    with open(path, errors="replace") as f:
+        for i, line in enumerate(f, 1):
+            if i <= idx and line.startswith(starts):
+                a = i
+            if i > idx and line.startswith(ends):
+                b = i - 1
+                break
+        else:
+            b = i
+    if a is None:
+        a = idx
+    return a, max(b, idx)
+
+
+def drop_range(path, a, b, out):
+    with open(path, errors="replace") as f, open(out, "w") as g:
+        for i, line in enumerate(f, 1):
+            if i < a or i > b:
+                g.write(line)
+
+
 def validate_with_retries(chk, name, module, trace_path, side_path, constants=None, max_reports=3, describe=None,
-                          known_filter=None, timeout=3600):
+                          known_filter=None, timeout=3600, drop_runs=False):
     """Validate a trace; on rejection record the violation (with the side-car replay data of the
     rejected event), drop the event and continue so that the rest of the trace is checked too."""
     cur_trace, cur_side = trace_path, side_path
@@ -351,6 +394,10 @@ def validate_with_retries(chk, name, module, trace_path, side_path, constants=No
             side = json.loads(side_line) if side_line else None
         except Exception:
             side = {"raw": side_line}
+        if isinstance(side, dict) and "bytes" not in side and cur_side and os.path.exists(cur_side):
+            ctx = find_back(cur_side, idx, "bytes")
+            if ctx:
+                side = {"event_side": side, "run": ctx}
         what = describe(ev) if describe else "event %d (%s) is not a step of %s" % (idx, ev.get("ev"), module)
         kf = known_filter(ev) if known_filter else None
         if kf:
@@ -363,9 +410,10 @@ def validate_with_retries(chk, name, module, trace_path, side_path, constants=No
             chk.notes.append("stopped validating %s after %d rejected events" % (os.path.basename(trace_path), reports))
             break
         nt, ns = cur_trace + ".next", (cur_side + ".next") if cur_side else None
-        drop_line(cur_trace, idx, nt)
+        a, b = block_range(cur_trace, idx) if drop_runs else (idx, idx)
+        drop_range(cur_trace, a, b, nt)
         if cur_side and os.path.exists(cur_side):
-            drop_line(cur_side, idx, ns)
+            drop_range(cur_side, a, b, ns)
         if cur_trace != trace_path:
             os.replace(nt, cur_trace)
             if ns:
